@@ -858,6 +858,7 @@ def run(ck):
                 ck.guarded(lambda: btprim.check_primitives(ck, t, cfg))
                 ck.guarded(lambda: btprim.check_insert(ck, tu, t, cfg))
                 ck.guarded(lambda: btprim.check_erase(ck, tu, t, cfg))
+                ck.guarded(lambda: btprim.check_bulk_load(ck, tu, t, cfg))
     m = n_trees
     ck.floor("NODE-ALLOC-OWNER", 7 * m)
     ck.floor("FREE-ON-UNLINK", 2 * m)
@@ -875,3 +876,4 @@ def run(ck):
     ck.floor("PRIMITIVE-EFFECT", 4 * m)      # eight primitives per small_traits tree
     ck.floor("INSERT-EFFECT", m)            # leaf and inner level per small_traits tree
     ck.floor("ERASE-EFFECT", 2 * m)
+    ck.floor("BULK-LOAD-SHAPE", m // 2)
